@@ -52,6 +52,30 @@ pub fn render(c: &Value) -> String {
             s("n1"), s("n2"), s("m1"), s("m2"), s("v")
         );
     }
+    if c["fam"] == "quant" {
+        let (a, b) = (c["a"].as_str().unwrap(), c["b"].as_str().unwrap());
+        let t1 = "(forall (A : VType) . A -> Ret A)";
+        let coerce = |from: &str| format!("let coerce : Thk (forall (B : VType) . {a} -> Ret {b}) = {from} in ! coerce A x");
+        let body = match c["share"].as_str().unwrap() {
+            | "fix" => format!("  let f = {{ fix (self : Thk {t1}) => fn (A : VType) (x : A) => {} }} that\n", coerce("self")),
+            | "alias" => format!("  let T1 = {t1} that\n  let g : Thk T1 = {{ fn (A : VType) (x : A) => ret x }} that\n  let h : Thk T1 = {{ fn (A : VType) (x : A) => {} }} that\n", coerce("g")),
+            | _ => format!("  let g : Thk {t1} = {{ fn (A : VType) (x : A) => ret x }} that\n  let h : Thk {t1} = {{ fn (A : VType) (x : A) => {} }} that\n", coerce("g")),
+        };
+        return format!("{PRELUDE}begin\n{body}  ! exit 3\nend\n");
+    }
+    if c["fam"] == "selfinst" {
+        let (t1, t2) = (c["t1"].as_str().unwrap(), c["t2"].as_str().unwrap());
+        let v = |t: &str| if t == "A" { "a" } else { "b" };
+        let t = "(forall (A : VType) . forall (B : VType) . A -> B -> Ret A)";
+        let head = "fn (A : VType) (B : VType) (a : A) (b : B) =>";
+        let call = |g: &str| format!("do r <- ! {g} {t1} {t2} {} {}; ret a", v(t1), v(t2));
+        let body = match c["share"].as_str().unwrap() {
+            | "fix" => format!("  let f : Thk {t} = {{ fix (self : Thk {t}) => {head} {} }} that\n", call("self")),
+            | "alias" => format!("  let T2 = {t} that\n  let g : Thk T2 = {{ {head} ret a }} that\n  let h : Thk T2 = {{ {head} {} }} that\n", call("g")),
+            | _ => format!("  let g : Thk {t} = {{ {head} ret a }} that\n  let h : Thk {t} = {{ {head} {} }} that\n", call("g")),
+        };
+        return format!("{PRELUDE}begin\n{body}  ! exit 3\nend\n");
+    }
     let mut targs: Vec<String> = c["targs"].as_array().unwrap().iter().map(|e| ty(e, true)).collect();
     if c["dropped"] == true {
         targs.remove(0);
@@ -88,7 +112,11 @@ pub fn replay_poly(cases_path: &str, out_path: &str) {
             let want = c["verdict"].as_str().unwrap();
             let (v, analysis) = an.analyze("case.zy", &src);
             let mut findings = Vec::new();
-            let what = if c["fam"] == "alpha" {
+            let what = if c["fam"] == "quant" {
+                format!("a value of type forall (A) . A -> Ret A ascribed forall (B) . {} -> Ret {} under the binder A (shared through {})", c["a"], c["b"], c["share"])
+            } else if c["fam"] == "selfinst" {
+                format!("a value of type forall (A) (B) . A -> B -> Ret A instantiated at the skolems {} {} under its own binders (shared through {})", c["t1"], c["t2"], c["share"])
+            } else if c["fam"] == "alpha" {
                 format!("fn ({} : VType) ({} : VType) (x : {}) (y : {}) => ret {} under forall (A) (B) . A -> B -> Ret A", c["n1"], c["n2"], c["m1"], c["m2"], c["v"])
             } else {
                 format!("{} at {} applied to {}, result used by {}", c["g"], c["targs"], c["vals"], c["use"])
